@@ -104,6 +104,11 @@ pub fn harvest(tier: Tier) -> Vec<Situation> {
         // prefer situations whose current data is large
         let mut items: Vec<((usize, u32), ((usize, u32), (usize, u32)))> = best.into_iter().collect();
         items.sort_by_key(|((_, cur), _)| std::cmp::Reverse(ex.cx.dec(*cur).map(|d| d.trace.len()).unwrap_or(0)));
+        if std::env::var("VERIF_ADV_DEBUG").is_ok() {
+            for ((peer, cur), _) in &items {
+                host::elog(&format!("SIT {} victim={} cur={} trace={:?}", s.name, ex.cx.world.peers[*peer].name, cur, ex.cx.dec(*cur).map(|d| d.trace.iter().map(|e| format!("{e:?}").chars().take(14).collect::<String>()).collect::<Vec<_>>())));
+            }
+        }
         for ((peer, cur), (least, most)) in items.into_iter().take(cap) {
             let mut prevs = vec![least.1];
             if most.1 != least.1 {
@@ -729,6 +734,28 @@ fn sweep_one(w: &mut Worker, sit: &Situation, attacker: &Peer, tier: Tier, pairs
                     c.victim_particle = a.victim_particle.clone();
                 }
                 todo.push((c, Some(a.clone())));
+            }
+        }
+    }
+    if pairs {
+        // targeted pairs: the attacker first takes back one of its *own* results (the only state it may rewrite and
+        // re-sign freely), then any operator of the full catalogue is applied - a peer that no longer holds the
+        // attacker's value cannot resolve the arguments of the calls that used it
+        if let Ok(cur_dec) = data::decode(&sit.cur) {
+            for a in first.iter().filter(|a| a.op == "entry-kind" && a.at.ends_with("to-sent-by-attacker")) {
+                let pos: Option<usize> = a.at.strip_prefix("trace[").and_then(|r| r.split(']').next()).and_then(|n| n.parse().ok());
+                let own = pos.and_then(|i| cur_dec.trace.get(i)).map(|e| match e {
+                    crate::data::Ent::Call(crate::data::CallSt::Exec { cid, kind, .. }) if *kind != 'u' => cur_dec.owner_of_call(cid).as_deref() == Some(attacker.id.as_str()),
+                    _ => false,
+                });
+                if own != Some(true) {
+                    continue;
+                }
+                for b in mutations(&a.json, &victim, attacker, tier) {
+                    let mut c = b.clone();
+                    c.results.extend(a.results.iter().cloned());
+                    todo.push((c, Some(a.clone())));
+                }
             }
         }
     }
